@@ -254,6 +254,12 @@ func genHistory(t *rapid.T, o jGenOpts) (*History, map[string]int) {
 			d.StartDate, d.StartTimeSec = e.StartDate, e.StartTimeSec
 			d.ID = fmt.Sprintf("%06d%s", rapid.SampledFrom([]int{1, 6002, 99999}).Draw(t, "origin2"), e.ID[6:])
 		}
+		if huge == 0 && i > 0 && rapid.IntRange(0, 9).Draw(t, "paddedTwin") == 0 {
+			// the id of an earlier trip with white space appended is another id (and another UID) at the same start instant
+			e := h.Pool[rapid.IntRange(0, len(h.Pool)-1).Draw(t, "twinOf")]
+			d = e
+			d.ID = e.ID + rapid.SampledFrom([]string{" ", "\t", "\u00a0", "  "}).Draw(t, "padding")
+		}
 		// the pool holds distinct trip identifiers
 		dup := false
 		for _, e := range h.Pool {
